@@ -240,8 +240,9 @@ impl ChainM {
         n
     }
 
-    pub fn next_code_id(&self) -> u64 {
-        self.codes.keys().last().copied().unwrap_or(0) + 1
+    /// One more than the largest identifier in use; none when that is u64::MAX.
+    pub fn next_code_id(&self) -> Option<u64> {
+        self.codes.keys().last().copied().unwrap_or(0).checked_add(1)
     }
 
     fn probe(&self, me: &str, p: &Probe) -> String {
